@@ -2,7 +2,7 @@
 
 resolve(tree) -> Model with
    .scopes            list of Scope in creation (pre-)order
-   .occ               dict key -> Occurrence, key = (id(node), field[, index])
+   .occ               dict key -> Occurrence, key = (nkey(node), field[, index])
    .unsupported       reasons the model does not cover (PEP 695 type parameter scopes)
 Every identifier occurrence gets .binding = ('b', scope_index, mangled_name) or ('free', mangled_name).
 """
@@ -52,6 +52,14 @@ class Occurrence(object):
         self.scope = scope      # scope in which the occurrence is evaluated/bound (after walrus / declaration routing)
         self.binding = None
         self.target_scope = None
+
+
+def nkey(node):
+    """position based identity of a node: the same for every parse of the same text (the matcher pairs nodes of a normalised
+    parse, the scope model is built from a pristine parse)"""
+    if isinstance(node, ast.Module):
+        return ('module',)
+    return (getattr(node, 'lineno', None), getattr(node, 'col_offset', None), getattr(node, 'end_lineno', None), getattr(node, 'end_col_offset', None), type(node).__name__)
 
 
 def mangle(name, class_name):
@@ -115,23 +123,23 @@ class Builder(ast.NodeVisitor):
             role = 'store'
         else:
             role = 'del'
-        self.occ(node, (id(node), 'id'), node.id, role)
+        self.occ(node, (nkey(node), 'id'), node.id, role)
 
     def visit_NamedExpr(self, node):
         # target binds in the nearest enclosing non-comprehension scope
         s = self.cur
         while s.kind == 'comprehension':
             s = s.parent
-        self.occ(node.target, (id(node.target), 'id'), node.target.id, 'walrus', scope=s)
+        self.occ(node.target, (nkey(node.target), 'id'), node.target.id, 'walrus', scope=s)
         self.visit(node.value)
 
     def visit_Global(self, node):
         for i, n in enumerate(node.names):
-            self.occ(node, (id(node), 'names', i), n, 'global')
+            self.occ(node, (nkey(node), 'names', i), n, 'global')
 
     def visit_Nonlocal(self, node):
         for i, n in enumerate(node.names):
-            self.occ(node, (id(node), 'names', i), n, 'nonlocal')
+            self.occ(node, (nkey(node), 'names', i), n, 'nonlocal')
 
     # ---- definitions
     def _arguments_outer(self, args):
@@ -154,19 +162,19 @@ class Builder(ast.NodeVisitor):
         first = True
         for kind, lst in (('posonly', getattr(args, 'posonlyargs', [])), ('std', args.args)):
             for a in lst:
-                o = self.occ(a, (id(a), 'arg'), a.arg, 'param', scope=scope)
+                o = self.occ(a, (nkey(a), 'arg'), a.arg, 'param', scope=scope)
                 scope.params[o.name] = 'posonly' if getattr(a, '_vf_posonly', False) else kind
                 if first:
                     scope.first_param = o.name
                     first = False
         if args.vararg is not None:
-            o = self.occ(args.vararg, (id(args.vararg), 'arg'), args.vararg.arg, 'param', scope=scope)
+            o = self.occ(args.vararg, (nkey(args.vararg), 'arg'), args.vararg.arg, 'param', scope=scope)
             scope.params[o.name] = 'vararg'
         for a in args.kwonlyargs:
-            o = self.occ(a, (id(a), 'arg'), a.arg, 'param', scope=scope)
+            o = self.occ(a, (nkey(a), 'arg'), a.arg, 'param', scope=scope)
             scope.params[o.name] = 'kwonly'
         if args.kwarg is not None:
-            o = self.occ(args.kwarg, (id(args.kwarg), 'arg'), args.kwarg.arg, 'param', scope=scope)
+            o = self.occ(args.kwarg, (nkey(args.kwarg), 'arg'), args.kwarg.arg, 'param', scope=scope)
             scope.params[o.name] = 'kwarg'
 
     def visit_FunctionDef(self, node):
@@ -176,7 +184,7 @@ class Builder(ast.NodeVisitor):
             self.visit(d)
         self._arguments_outer(node.args)
         self._annotations_outer(node.args, node.returns)
-        self.occ(node, (id(node), 'name'), node.name, 'def')
+        self.occ(node, (nkey(node), 'name'), node.name, 'def')
         s = self.new_scope('function', node, node.name)
         s.decorators = node.decorator_list
         s.is_method_like = self.cur.kind == 'class'
@@ -207,7 +215,7 @@ class Builder(ast.NodeVisitor):
             self.visit(b)
         for k in node.keywords:
             self.visit(k.value)
-        self.occ(node, (id(node), 'name'), node.name, 'classdef')
+        self.occ(node, (nkey(node), 'name'), node.name, 'classdef')
         s = self.new_scope('class', node, node.name)
         s.decorators = node.decorator_list
         old = self.cur
@@ -249,7 +257,7 @@ class Builder(ast.NodeVisitor):
     def visit_Import(self, node):
         for a in node.names:
             raw = a.asname if a.asname is not None else a.name.split('.')[0]
-            self.occ(a, (id(a), 'bound'), raw, 'import')
+            self.occ(a, (nkey(a), 'bound'), raw, 'import')
 
     def visit_ImportFrom(self, node):
         for a in node.names:
@@ -257,13 +265,13 @@ class Builder(ast.NodeVisitor):
                 self.m.star_import = True
                 continue
             raw = a.asname if a.asname is not None else a.name
-            self.occ(a, (id(a), 'bound'), raw, 'import')
+            self.occ(a, (nkey(a), 'bound'), raw, 'import')
 
     def visit_ExceptHandler(self, node):
         if node.type is not None:
             self.visit(node.type)
         if node.name is not None:
-            self.occ(node, (id(node), 'name'), node.name, 'except')
+            self.occ(node, (nkey(node), 'name'), node.name, 'except')
         for st in node.body:
             self.visit(st)
 
@@ -271,11 +279,11 @@ class Builder(ast.NodeVisitor):
         if node.pattern is not None:
             self.visit(node.pattern)
         if node.name is not None:
-            self.occ(node, (id(node), 'name'), node.name, 'match')
+            self.occ(node, (nkey(node), 'name'), node.name, 'match')
 
     def visit_MatchStar(self, node):
         if node.name is not None:
-            self.occ(node, (id(node), 'name'), node.name, 'match')
+            self.occ(node, (nkey(node), 'name'), node.name, 'match')
 
     def visit_MatchMapping(self, node):
         for k in node.keys:
@@ -283,7 +291,7 @@ class Builder(ast.NodeVisitor):
         for p in node.patterns:
             self.visit(p)
         if node.rest is not None:
-            self.occ(node, (id(node), 'rest'), node.rest, 'match')
+            self.occ(node, (nkey(node), 'rest'), node.rest, 'match')
 
     def visit_AnnAssign(self, node):
         # compiler order: target, annotation, value  (binding analysis does not depend on it)
